@@ -1681,7 +1681,7 @@ class Executor:
             if ins is not None and 'name' in ins:
                 fr.env[ins['name']] = r
             return None
-        if len(st.frames) > 400:
+        if len(st.frames) > 5000:
             raise Unsupported('call depth')
         # prune the caller's environment to what is needed after the call
         if ins is not None and '_keep' in ins and not rerun:
